@@ -164,6 +164,33 @@ def run_table_sort(chk, spec):
 	names2, cols2 = J.cells(o2.value)
 	if names2 != names or not all(M.same_list(a, b) for a, b in zip(cols, cols2)):
 		chk.fail("sorting a sorted table changes nothing", "table-sort/not-idempotent", f"{spec!r}: first {short(cols, 200)} second {short(cols2, 200)}")
+		return
+	if spec.get("rewrite") and all(ref["mode"] != "external" for ref in spec["by"]) and n > 1:
+		# the sorted table is an ordinary table: disturb a key cell through its column vector, then ask for the same order again
+		import random
+		rr = random.Random(n * 7919 + len(names))
+		ref = spec["by"][0]
+		kpos = names.index(ref["name"])
+		donor = [x for x in cols[kpos] if x is not None]
+		if not donor:
+			return
+		i = rr.randrange(n)
+		newval = cols[kpos][n - 1 - i] if cols[kpos][n - 1 - i] is not None else donor[0]
+		w = call(lambda: (r[ref["name"]] if rr.random() < 0.5 else r.cols()[kpos]).__setitem__(i, newval))
+		if not w.ok:
+			chk.counters["resort-rewrite-refused"] += 1
+			return
+		names3, cols3 = J.cells(r)
+		o3 = call(lambda: r.sort_by(key_arg(r, spec2), reverse=reverse_arg(spec), na_last=na_last))
+		chk.judged("resort", ("resort-after-write", len(keycols), tuple(revs), na_last))
+		if not o3.ok:
+			chk.fail("a sorted table can be sorted again", f"table-sort/resort-raises/{type(o3.exc).__name__}", f"{spec!r}: sort after a view write raised {o3!r}")
+			return
+		names4, cols4 = J.cells(o3.value)
+		in3 = J.rows_from(cols3, n)
+		keycols3 = [cols3[names3.index(rf["name"])] for rf in spec["by"]]
+		ids3 = [rw[id_pos] for rw in in3]
+		check_sorted(chk, "table-sort/after-view-write", spec, in3, keycols3, ids3, J.rows_from(cols4, len(cols4[0]) if cols4 else 0), id_pos, revs, na_last)
 
 
 def run_vector_sort(chk, spec):
@@ -214,6 +241,7 @@ SORT_DOMAINS = {
 	"int": [1, 2, 3, 1, 2, 0, -1],
 	"str": ["a", "b", "c", "a", "", "B"],
 	"float": [0.5, 1.5, -2.0, 0.5, 1e300, -0.0, 0.0],
+	"floatinf": [float("inf"), 1.0, float("-inf"), 0.5, float("inf"), -2.0],
 	"bool": [True, False],
 	"date": [V.D0, date(2021, 2, 28), date(1999, 12, 31)],
 	"mixed": [1, 1.0, True, 0, 0.0, False, 2],
@@ -225,7 +253,7 @@ def gen_sort_spec(rng, max_rows=8):
 	nkeys = rng.choice([1, 1, 2, 2, 3])
 	names, cols, by = [], [], []
 	for i in range(nkeys):
-		kind = rng.choice(["int", "str", "float", "bool", "date", "int", "mixed"])
+		kind = rng.choice(["int", "str", "float", "bool", "date", "int", "mixed", "floatinf"])
 		dom = SORT_DOMAINS[kind][:rng.choice([1, 2, 3, 7])]
 		p_none = rng.choice([0.0, 0.0, 0.2, 0.5])
 		kc = [None if rng.random() < p_none else rng.choice(dom) for _ in range(n)]
@@ -242,6 +270,22 @@ def gen_sort_spec(rng, max_rows=8):
 	for j in range(rng.choice([0, 1, 2])):
 		names.append(rng.choice(["p", "q", f"p{j}"]) if rng.random() < 0.3 else f"pay{j}")
 		cols.append(V.column(rng, rng.choice(["int", "str", "float"]), n, rng.choice(["none", "low", "high"]), small=True))
+	# a column whose name differs from a key's name only by case / punctuation, placed BEFORE it: a key given by name means the exact name
+	if rng.random() < 0.15 and names:
+		cand = [i for i, r in enumerate(by) if r["mode"] in ("name", "vector")]
+		if cand:
+			ref = by[rng.choice(cand)]
+			exact, lookalike = rng.choice([("score", "Score"), ("unit_price", "unit price"), ("id", "ID"), ("a_b", "a-b")])
+			pos = names.index(ref["name"])
+			names[pos] = exact
+			for r in by:
+				if r.get("name") == ref["name"] and r is not ref and r["mode"] != "external":
+					r["name"] = exact
+			ref["name"] = exact
+			twin = list(cols[pos])
+			rng.shuffle(twin)
+			names.insert(pos, lookalike)
+			cols.insert(pos, twin)
 	form = rng.choice(["bool", "bool", "list", "tuple"])
 	revs = [rng.random() < 0.5 for _ in range(nkeys)]
 	if nkeys < 3 and rng.random() < 0.2:
@@ -251,7 +295,7 @@ def gen_sort_spec(rng, max_rows=8):
 		revs.append(not revs[j])
 		nkeys += 1
 		form = rng.choice(["list", "tuple"])
-	return {"table": {"names": names, "cols": cols}, "by": by, "reverse": revs, "reverse_form": form, "na_last": rng.random() < 0.6,
+	return {"rewrite": rng.random() < 0.35, "table": {"names": names, "cols": cols}, "by": by, "reverse": revs, "reverse_form": form, "na_last": rng.random() < 0.6,
 		"scalar_by": nkeys == 1 and rng.random() < 0.5, "by_container": rng.choice(["list", "tuple"]), "id_first": rng.random() < 0.3}
 
 
